@@ -11,8 +11,13 @@
     laid out as `mkMsg addr tags rest` (address and ",tags" each NUL-padded to a
     multiple of four, then `rest` = argument payload and whatever else the buffer holds).
     `rtosc_match_path` also accepts a plain C string: `addr ++ 0 :: ex`.
-  * "indices … up to 9 digits": `IdxBounded addr` — every digit run of the address
-    denotes a number below 2^31 (beyond that `atoi` wraps, see `atoi_wraps`).
+  * "indices … up to 9 digits": `EnumIdxBounded p addr` (Match/SpecExt.lean) — the digit
+    runs of the address that stand at enumerations of the pattern denote numbers below 2^31
+    (beyond that `atoi` wraps, see `atoi_wraps`, `match_sound_needs_enumIdx`).  The theorems
+    of the first part carry the stronger `IdxBounded addr` (every digit run of the whole
+    address); the `…_enum` theorems of the extension restate them with the weaker one, and
+    completeness (`match_complete`, `msg_complete`) and memory safety (`match_total_all`,
+    `msg_total_all`) need no hypothesis on digit runs at all.
   * "matches": `rtosc_match_path` returns non-NULL (`PathMatches`), `rtosc_match`
     returns true (`MsgMatches`).
   * The address part is an equivalence (`match_iff_spec`); for the type string the
@@ -32,8 +37,12 @@
     Trigger predicate `Pat.hasPrefixAlts`; `match_complete_counterexample`,
     `match_complete_partial`.  Soundness (`match_sound`, `enum_bound_strict`, the
     right-hand side of the sandwich) does not need the exclusion.
+    What the code does on the K1 class is stated exactly: it accepts an address iff the
+    *leftmost-alternative reading* spells the pattern (`match_iff_leftmost`,
+    `msg_iff_leftmost`, `k1_exact`, `enum_bound_leftmost`).
 -/
 import RtoscModel.Proofs.MatchLemmas
+import RtoscModel.Proofs.MatchExtLeft
 namespace Rtosc.Match
 open Rtosc
 
@@ -405,5 +414,380 @@ example : path exPat.cstr ([97, 98, 49, 50, 47, 99, 120, 47] ++ [0]) = .fail := 
 
 /-- the copies are exercised on a pattern with a retry and a prefix match -/
 example : argMatcher [58, 105, 58, 102, 0] [102, 102, 0] = some true := by decide
+
+/-! ## Proof extension: the hypothesis on digit runs weakened, full completeness,
+    the leftmost-alternative reading -/
+
+/-! ### (1) `IdxBounded` weakened to the digit runs at enumerations -/
+
+/-- **idxBounded_enumIdx**: the old hypothesis (every digit run of the whole address below
+    2^31) implies the new one (only the digit runs that stand at enumerations of the
+    pattern), for every pattern. -/
+theorem idxBounded_enumIdx (p : Pat) {addr : Bytes} (hb : IdxBounded addr) : EnumIdxBounded p addr :=
+  enumRunsBounded_of_idxBounded p.segs hb
+
+/-- **enumIdxBounded_iff_check**: the new hypothesis is decidable (evaluated by `enumIdxCheck`). -/
+theorem enumIdxBounded_iff_check (p : Pat) (addr : Bytes) :
+    EnumIdxBounded p addr ↔ enumIdxCheck p.segs addr = true :=
+  enumRunsBounded_iff_check p.segs addr
+
+/-- **enumIdxBounded_of_all_readings**: the form of the hypothesis that does not mention the
+    leftmost reading — the digit run behind *every* reading of the segments in front of an
+    enumeration is below 2^31 — implies it. -/
+theorem enumIdxBounded_of_all_readings {p : Pat} {addr : Bytes}
+    (h : ∀ pre ds post x, p.segs = pre ++ .enum ds :: post → SpellsAll pre addr x →
+      decVal (x.takeWhile isDigit) < 2 ^ 31) : EnumIdxBounded p addr :=
+  enumRunsBounded_of_all h
+
+/-- **match_total_all** (memory safety of `rtosc_match_path` with *no* hypothesis on the digit
+    runs): for every pattern of the documented form and every C-string address the walk
+    reads nothing outside the two strings; it returns NULL or a pointer to the pattern's type
+    part, with `*path_end` pointing into the address. -/
+theorem match_total_all {p : Pat} (hwf : p.WF0) {addr : Bytes} (ex : Bytes) (ha : NulFree addr) :
+    path p.cstr (addr ++ 0 :: ex) = .fail ∨
+    ∃ t, path p.cstr (addr ++ 0 :: ex) = .ok (renderTypes p.types ++ [0], t ++ 0 :: ex) ∧
+      t <:+ addr := by
+  rw [path_renderedU hwf ex ha]
+  cases hg : greedyU p.segs p.sub addr with
+  | none => exact Or.inl rfl
+  | some t => exact Or.inr ⟨t, rfl, greedyU_suffix p.sub p.segs addr t hg⟩
+
+/-- **msg_total_all** (memory safety of `rtosc_match` with no hypothesis on the digit runs):
+    every message laid out as `rtosc_amessage` does, in a buffer of any size from exactly
+    the message's own on, gets a verdict. -/
+theorem msg_total_all {p : Pat} (hwf : p.WF0) {addr tags : Bytes} (rest : Bytes)
+    (ha : NulFree addr) (ht : NulFree tags) :
+    ∃ r, full p.cstr (mkMsg addr tags rest) = some r := by
+  obtain ⟨ex, _, hfull⟩ := full_renderedU hwf rest ha ht
+  rw [hfull]
+  cases greedyU p.segs p.sub addr with
+  | none => exact ⟨_, rfl⟩
+  | some t => exact ⟨_, rfl⟩
+
+/-! ### (3) the leftmost-alternative reading: what the matcher accepts on *every* pattern of
+    the documented form (the K1 class included) -/
+
+/-- **leftmost_spells**: a leftmost reading is a reading in the sense of the statement. -/
+theorem leftmost_spells {p : Pat} {addr : Bytes} (h : PathSpecLeftmost p addr) : PathSpec p addr := by
+  obtain ⟨rest, h1, h2⟩ := h
+  exact ⟨rest, h1.spells, h2⟩
+
+/-- **leftmost_iff_spec**: on prefix-free groups the two notions coincide. -/
+theorem leftmost_iff_spec {p : Pat} (hpf : p.hasPrefixAlts = false) (addr : Bytes) :
+    PathSpecLeftmost p addr ↔ PathSpec p addr := by
+  have hpf' : segsPrefixFree p.segs = true := by
+    simpa [Pat.hasPrefixAlts, Pat.prefixFree] using hpf
+  constructor
+  · exact leftmost_spells
+  · rintro ⟨rest, h1, h2⟩
+    exact ⟨rest, spellsAll_leftmost h1 hpf', h2⟩
+
+/-- **match_leftmost_complete** (completeness for *every* pattern of the documented form,
+    no hypothesis on digit runs): an address whose leftmost-alternative reading spells the
+    pattern is accepted. -/
+theorem match_leftmost_complete {p : Pat} (hwf : p.WF0) {addr : Bytes} (ex : Bytes)
+    (ha : NulFree addr) (hs : PathSpecLeftmost p addr) : PathMatches p.cstr (addr ++ 0 :: ex) := by
+  obtain ⟨rest, h1, _⟩ := hs
+  have hb := enumIdxBounded_of_leftmost hwf h1
+  obtain ⟨t, ht⟩ := (greedy_iff_leftmost p addr).mpr ⟨rest, h1, ‹_›⟩
+  exact ⟨_, by rw [path_rendered_enum hwf ex ha hb, ht]⟩
+
+/-- **match_iff_leftmost** (the K1 class made precise): for every pattern of the documented
+    form — groups with prefix-related alternatives included — `rtosc_match_path` accepts
+    an address iff its *leftmost-alternative reading* spells the pattern: literal text
+    character for character, at each `#N` a whole decimal index < N, at each `{}` group the
+    first alternative (in pattern order) that is a prefix of what is left of the address,
+    and the address ends where the pattern's path ends (or continues after the trailing '/'). -/
+theorem match_iff_leftmost {p : Pat} (hwf : p.WF0) {addr : Bytes} (ex : Bytes)
+    (ha : NulFree addr) (hb : EnumIdxBounded p addr) :
+    PathMatches p.cstr (addr ++ 0 :: ex) ↔ PathSpecLeftmost p addr := by
+  refine ⟨?_, match_leftmost_complete hwf ex ha⟩
+  rintro ⟨r, hr⟩
+  rw [path_rendered_enum hwf ex ha hb] at hr
+  apply (greedy_iff_leftmost p addr).mp
+  cases hg : greedy p.segs p.sub addr with
+  | none => simp [hg] at hr
+  | some t => exact ⟨t, rfl⟩
+
+/-- **k1_exact**: the addresses finding C05-K1 is about — they spell the pattern, the code
+    rejects them — are exactly those that spell it by a reading other than the leftmost one only. -/
+theorem k1_exact {p : Pat} (hwf : p.WF0) {addr : Bytes} (ex : Bytes)
+    (ha : NulFree addr) (hb : EnumIdxBounded p addr) :
+    (PathSpec p addr ∧ ¬ PathMatches p.cstr (addr ++ 0 :: ex)) ↔
+    (PathSpec p addr ∧ ¬ PathSpecLeftmost p addr) := by
+  rw [match_iff_leftmost hwf ex ha hb]
+
+/-- **leftmost_unique**: an address has at most one leftmost reading. -/
+theorem leftmost_unique {segs : List Seg} {a r1 r2 : Bytes}
+    (h1 : SpellsLeftmost segs a r1) (h2 : SpellsLeftmost segs a r2) : r1 = r2 :=
+  spellsLeftmost_unique h1 h2 rfl
+
+/-! ### soundness under the weakened hypothesis, completeness without any -/
+
+/-- **match_sound_enum**: `match_sound` with `IdxBounded` weakened to the digit runs that
+    stand at enumerations of the pattern. -/
+theorem match_sound_enum {p : Pat} (hwf : p.WF0) {addr : Bytes} (ex : Bytes)
+    (ha : NulFree addr) (hb : EnumIdxBounded p addr)
+    (hm : PathMatches p.cstr (addr ++ 0 :: ex)) : PathSpec p addr :=
+  leftmost_spells ((match_iff_leftmost hwf ex ha hb).mp hm)
+
+/-- **match_complete** (completeness of `rtosc_match_path` at full strength for patterns with
+    prefix-free groups): every C-string address that spells the pattern is accepted — no
+    hypothesis on digit runs (the indices the address carries are below N < 2^31 because it
+    spells the pattern; digit runs elsewhere are compared as text). -/
+theorem match_complete {p : Pat} (hwf : p.WF) {addr : Bytes} (ex : Bytes) (ha : NulFree addr)
+    (hs : PathSpec p addr) : PathMatches p.cstr (addr ++ 0 :: ex) := by
+  have hpf : p.hasPrefixAlts = false := by
+    have := wf_prefixFree hwf
+    simpa [Pat.hasPrefixAlts, Pat.prefixFree] using this
+  exact match_leftmost_complete (wf_wf0 hwf) ex ha ((leftmost_iff_spec hpf addr).mpr hs)
+
+/-- **match_iff_spec_enum**: `match_iff_spec` with `IdxBounded` weakened to the digit runs
+    that stand at enumerations of the pattern. -/
+theorem match_iff_spec_enum {p : Pat} (hwf : p.WF) {addr : Bytes} (ex : Bytes)
+    (ha : NulFree addr) (hb : EnumIdxBounded p addr) :
+    PathMatches p.cstr (addr ++ 0 :: ex) ↔ PathSpec p addr :=
+  ⟨match_sound_enum (wf_wf0 hwf) ex ha hb, match_complete hwf ex ha⟩
+
+/-- **match_sound_needs_enumIdx**: the weakened hypothesis cannot be dropped: `#2` accepts the
+    address "4294967296" (`atoi` wraps to 0), which carries an index ≥ 2 at the enumeration. -/
+theorem match_sound_needs_enumIdx :
+    let p : Pat := { segs := [.enum [50]], sub := false, types := none }
+    let addr : Bytes := [52, 50, 57, 52, 57, 54, 55, 50, 57, 54]
+    p.WF ∧ NulFree addr ∧ PathMatches p.cstr (addr ++ [0]) ∧ ¬ PathSpec p addr ∧
+      ¬ EnumIdxBounded p addr := by
+  intro p addr
+  have hwf : p.WF := by decide
+  have hn : NulFree addr := by unfold NulFree; decide
+  have hm : PathMatches p.cstr (addr ++ [0]) := ⟨([0], [0]), by decide⟩
+  have hnb : ¬ EnumIdxBounded p addr := by decide
+  refine ⟨hwf, hn, hm, ?_, hnb⟩
+  intro hs
+  have hb := enumIdxBounded_of_leftmost (wf_wf0 hwf)
+    ((leftmost_iff_spec (by decide) addr).mpr hs).choose_spec.1
+  exact hnb hb
+
+/-- **msg_iff_leftmost** (goal: the K1 class made precise, for whole messages): for every
+    pattern of the documented form `rtosc_match` accepts a message iff the leftmost-alternative
+    reading of its address spells the pattern and its type string is one of the alternatives
+    or an extension of the last one. -/
+theorem msg_iff_leftmost {p : Pat} (hwf : p.WF0) {addr tags : Bytes} (rest : Bytes)
+    (ha : NulFree addr) (hb : EnumIdxBounded p addr) (ht : NulFree tags) :
+    MsgMatches p.cstr (mkMsg addr tags rest) ↔ PathSpecLeftmost p addr ∧ TypesCode p tags := by
+  obtain ⟨ex, hex, hfull⟩ := full_rendered_enum hwf rest ha hb ht
+  have hiff := greedy_iff_leftmost p addr
+  cases hg : greedy p.segs p.sub addr with
+  | none =>
+    simp only [hg] at hfull hiff
+    have : ¬ PathSpecLeftmost p addr := fun h => by simpa using hiff.mpr h
+    simp [MsgMatches, hfull, this]
+  | some t =>
+    have hps : PathSpecLeftmost p addr := hiff.mp ⟨t, hg⟩
+    simp only [hg] at hfull
+    cases htypes : p.types with
+    | none => simp only [htypes] at hfull; simp [MsgMatches, hfull, hps, TypesCode, htypes]
+    | some ts =>
+      simp only [htypes] at hfull
+      have htw := wf0_types hwf
+      simp only [htypes, typesWf, Bool.and_eq_true, Bool.not_eq_eq_eq_not, Bool.not_true,
+        List.isEmpty_eq_false_iff] at htw
+      simp only [MsgMatches, hfull, Option.map_some, Option.some.injEq, hps, true_and, TypesCode,
+        htypes, forall_eq']
+      exact typesCode_exact htw.1
+
+/-- **msg_sound_enum**: `msg_sound` with `IdxBounded` weakened to the digit runs that stand at
+    enumerations of the pattern. -/
+theorem msg_sound_enum {p : Pat} (hwf : p.WF0) {addr tags : Bytes} (rest : Bytes)
+    (ha : NulFree addr) (hb : EnumIdxBounded p addr) (ht : NulFree tags)
+    (hm : MsgMatches p.cstr (mkMsg addr tags rest)) : SpecMayMatch p addr tags := by
+  obtain ⟨hps, hty⟩ := (msg_iff_leftmost hwf rest ha hb ht).mp hm
+  refine ⟨leftmost_spells hps, ?_⟩
+  intro ts htypes
+  rcases hty ts htypes with h | ⟨l, hl, _, hpre⟩
+  · exact ⟨tags, h, List.prefix_refl _⟩
+  · exact ⟨l, List.mem_of_getLast? hl, hpre⟩
+
+/-- **msg_leftmost_complete** (message-level completeness for *every* pattern of the
+    documented form): a message whose address spells the pattern by its leftmost-alternative
+    reading and whose type string is one of the alternatives (any type string, C string or
+    not, if the pattern gives none) is accepted — whatever digit runs the address holds and
+    whatever follows the message in its buffer. -/
+theorem msg_leftmost_complete {p : Pat} (hwf : p.WF0) {addr tags : Bytes} (rest : Bytes)
+    (ha : NulFree addr) (hs : PathSpecLeftmost p addr) (hty : TypesExact p tags) :
+    MsgMatches p.cstr (mkMsg addr tags rest) := by
+  have hb : EnumIdxBounded p addr := enumIdxBounded_of_leftmost hwf hs.choose_spec.1
+  obtain ⟨t, hg⟩ := (greedy_iff_leftmost p addr).mpr hs
+  cases htypes : p.types with
+  | none =>
+    obtain ⟨ex, _, hfull⟩ := full_renderedU_untyped hwf htypes tags rest ha
+    rw [greedyU_eq_greedy_of hwf hb, hg] at hfull
+    simp [MsgMatches, hfull]
+  | some ts =>
+    have hmem := hty ts htypes
+    have ht : NulFree tags := wf0_types_nulFree hwf htypes hmem
+    refine (msg_iff_leftmost hwf rest ha hb ht).mpr ⟨hs, ?_⟩
+    intro ts' h'
+    rw [htypes] at h'
+    cases h'
+    exact Or.inl hmem
+
+/-- **msg_complete** (message-level completeness at full strength, the clause "a message
+    matches … when its address spells … and, if type alternatives are given, its type tag
+    string equals one of them"): for every well-formed pattern (prefix-free groups) and every
+    message whose address — a C string — spells the pattern and whose type string is one of
+    the alternatives (any type string if the pattern gives none), `rtosc_match` accepts.  No
+    hypothesis on the digit runs of the address, none on the type string beyond the statement's,
+    none on the buffer behind the message. -/
+theorem msg_complete {p : Pat} (hwf : p.WF) {addr tags : Bytes} (rest : Bytes)
+    (ha : NulFree addr) (hs : SpecMatch p addr tags) : MsgMatches p.cstr (mkMsg addr tags rest) := by
+  have hpf : p.hasPrefixAlts = false := by
+    have := wf_prefixFree hwf
+    simpa [Pat.hasPrefixAlts, Pat.prefixFree] using this
+  exact msg_leftmost_complete (wf_wf0 hwf) rest ha ((leftmost_iff_spec hpf addr).mpr hs.1) hs.2
+
+/-- **types_exact_enum**: `types_exact` with `IdxBounded` weakened to the digit runs that
+    stand at enumerations of the pattern. -/
+theorem types_exact_enum {p : Pat} (hwf : p.WF) {addr tags : Bytes} (rest : Bytes)
+    (ha : NulFree addr) (hb : EnumIdxBounded p addr) (ht : NulFree tags) :
+    MsgMatches p.cstr (mkMsg addr tags rest) ↔ PathSpec p addr ∧ TypesCode p tags := by
+  have hpf : p.hasPrefixAlts = false := by
+    have := wf_prefixFree hwf
+    simpa [Pat.hasPrefixAlts, Pat.prefixFree] using this
+  rw [msg_iff_leftmost (wf_wf0 hwf) rest ha hb ht, leftmost_iff_spec hpf addr]
+
+/-- **types_sandwich_enum**: `types_sandwich` with (left) no hypothesis on digit runs or on
+    the type string, (right) `IdxBounded` weakened. -/
+theorem types_sandwich_enum {p : Pat} (hwf : p.WF) {addr tags : Bytes} (rest : Bytes)
+    (ha : NulFree addr) :
+    (SpecMatch p addr tags → MsgMatches p.cstr (mkMsg addr tags rest)) ∧
+    (EnumIdxBounded p addr → NulFree tags →
+      MsgMatches p.cstr (mkMsg addr tags rest) → SpecMayMatch p addr tags) :=
+  ⟨msg_complete hwf rest ha, fun hb ht => msg_sound_enum (wf_wf0 hwf) rest ha hb ht⟩
+
+/-! ### the enumeration bound -/
+
+/-- **enum_bound_leftmost** (the array-safety corollary for *every* pattern of the documented
+    form): an address whose leftmost reading of the segments in front of an enumeration `#N`
+    is followed by an index `idx` — the whole digit run found there, itself below 2^31 —
+    with `idx ≥ N` is rejected, whatever follows.  No hypothesis on any other digit run. -/
+theorem enum_bound_leftmost {p : Pat} (hwf : p.WF0) {pre post : List Seg} {ds : Bytes}
+    (hp : p.segs = pre ++ .enum ds :: post)
+    {addr idx r : Bytes} (hsp : SpellsLeftmost pre addr (idx ++ r))
+    (hdig : ∀ c ∈ idx, isDigit c = true) (hmax : ∀ c t, r = c :: t → isDigit c = false)
+    (hN : decVal ds ≤ decVal idx) (hidx : decVal idx < 2 ^ 31)
+    (ex : Bytes) (ha : NulFree addr) :
+    path p.cstr (addr ++ 0 :: ex) = .fail := by
+  obtain ⟨h1, h2⟩ := takeWhile_run hdig hmax
+  have hNs := segsWf_enum (wf0_segs hwf)
+  rw [hp] at hNs
+  have hck : enumIdxCheck p.segs addr = true := by
+    rw [hp, enumIdxCheck_prefix hsp (fun ds' h => hNs ds' (by simp [h]))]
+    have : ¬ (idx ≠ [] ∧ decVal idx < decVal ds) := fun h => by omega
+    simp [enumIdxCheck, h1, hidx, this]
+  have hg := greedy_leftmost_complete p.sub (.enum ds :: post) hsp
+  rw [path_rendered_enum hwf ex ha ((enumIdxBounded_iff_check p addr).mpr hck), hp, hg]
+  have : ¬ (idx ≠ [] ∧ decVal idx < decVal ds) := fun h => by omega
+  simp [greedy, h1, this]
+
+/-- **enum_bound_strict_idx**: `enum_bound_strict` with `IdxBounded addr` weakened to a bound
+    on the one index in question. -/
+theorem enum_bound_strict_idx {p : Pat} (hwf : p.WF) {pre post : List Seg} {ds : Bytes}
+    (hp : p.segs = pre ++ .enum ds :: post)
+    {addr idx r : Bytes} (hsp : SpellsAll pre addr (idx ++ r))
+    (hdig : ∀ c ∈ idx, isDigit c = true) (hmax : ∀ c t, r = c :: t → isDigit c = false)
+    (hN : decVal ds ≤ decVal idx) (hidx : decVal idx < 2 ^ 31)
+    (ex : Bytes) (ha : NulFree addr) :
+    path p.cstr (addr ++ 0 :: ex) = .fail := by
+  have hpf := wf_prefixFree hwf
+  rw [hp] at hpf
+  have hpre : segsPrefixFree pre = true := by
+    simp only [segsPrefixFree, List.all_append, Bool.and_eq_true] at hpf ⊢
+    exact hpf.1
+  exact enum_bound_leftmost (wf_wf0 hwf) hp (spellsAll_leftmost hsp hpre) hdig hmax hN hidx ex ha
+
+/-- the same for `rtosc_match`: no message with such an address matches -/
+theorem enum_bound_leftmost_msg {p : Pat} (hwf : p.WF0) {pre post : List Seg} {ds : Bytes}
+    (hp : p.segs = pre ++ .enum ds :: post)
+    {addr idx r : Bytes} (hsp : SpellsLeftmost pre addr (idx ++ r))
+    (hdig : ∀ c ∈ idx, isDigit c = true) (hmax : ∀ c t, r = c :: t → isDigit c = false)
+    (hN : decVal ds ≤ decVal idx) (hidx : decVal idx < 2 ^ 31)
+    (tags rest : Bytes) (ha : NulFree addr) :
+    full p.cstr (mkMsg addr tags rest) = some (false, none) := by
+  obtain ⟨ex, hex⟩ := mkMsg_shape addr tags rest
+  have := enum_bound_leftmost hwf hp hsp hdig hmax hN hidx ex ha
+  rw [← hex] at this
+  simp [full, this]
+
+/-- pattern `{a1,a}#5` -/
+def k1EnumPat : Pat := { segs := [.alts [[97, 49], [97]], .enum [53]], sub := false, types := none }
+
+/-- **enum_bound_needs_leftmost**: with prefix-related alternatives the enumeration bound holds
+    of the leftmost reading only.  `{a1,a}#5` and the address "a12": read with the alternative
+    "a" the index is 12 ≥ 5, and the address is accepted all the same — by its leftmost reading
+    (alternative "a1", index 2 < 5), which is a reading in the sense of the statement, so the
+    accepted index is below N (`match_sound_enum`). -/
+theorem enum_bound_needs_leftmost :
+    k1EnumPat.WF0 ∧ SpellsAll [.alts [[97, 49], [97]]] [97, 49, 50] ([49, 50] ++ []) ∧
+    decVal [53] ≤ decVal [49, 50] ∧
+    PathMatches k1EnumPat.cstr ([97, 49, 50] ++ [0]) ∧ PathSpecLeftmost k1EnumPat [97, 49, 50] := by
+  have hm : PathMatches k1EnumPat.cstr ([97, 49, 50] ++ [0]) := ⟨([0], [0]), by decide⟩
+  have hn : NulFree [97, 49, 50] := by unfold NulFree; decide
+  refine ⟨by decide, SpellsAll.alts _ [97] (by simp) (SpellsAll.nil _), by decide, hm,
+    (match_iff_leftmost (p := k1EnumPat) (by decide) [] hn (by decide)).mp hm⟩
+
+/-! ### Non-vacuity of the extension -/
+
+/-- `v4294967296x#12{y,yz}z:i` — literal text that holds a digit run ≥ 2^32, an enumeration,
+    a group with prefix-related alternatives (K1 class), a type alternative -/
+def exPat2 : Pat :=
+  { segs := [.lit [118, 52, 50, 57, 52, 57, 54, 55, 50, 57, 54, 120], .enum [49, 50],
+             .alts [[121], [121, 122]], .lit [122]],
+    sub := false, types := some [[105]] }
+
+/-- "v4294967296x007yz" -/
+def exAddr2 : Bytes := [118, 52, 50, 57, 52, 57, 54, 55, 50, 57, 54, 120, 48, 48, 55, 121, 122]
+
+example : exPat2.WF0 := by decide
+example : exPat2.hasPrefixAlts = true := by decide
+example : NulFree exAddr2 := by unfold NulFree exAddr2; decide
+/-- the weakened hypothesis holds … -/
+example : EnumIdxBounded exPat2 exAddr2 := by decide
+/-- … the old one does not: the digit run inside the literal text is 2^32 -/
+example : ¬ IdxBounded exAddr2 := fun h =>
+  absurd (h [118] [52, 50, 57, 52, 57, 54, 55, 50, 57, 54] [120, 48, 48, 55, 121, 122] rfl (by decide))
+    (by decide)
+/-- the leftmost reading: literal text, index 007 < 12, alternative "y", then "z" -/
+example : PathSpecLeftmost exPat2 exAddr2 :=
+  ⟨[], SpellsLeftmost.lit _
+    (SpellsLeftmost.enum [49, 50] [48, 48, 55] (by simp) (by decide) (by intro c t h; cases h; decide)
+      (by decide)
+      (SpellsLeftmost.alts _ [] [121] [[121, 122]] rfl (by simp)
+        (SpellsLeftmost.lit [122] (SpellsLeftmost.nil [])))), by simp [exPat2]⟩
+example : MsgMatches exPat2.cstr (mkMsg exAddr2 [105] []) := by decide
+/-- "v4294967296x007yzz" spells the pattern (alternative "yz", then "z") but not by its
+    leftmost reading: rejected (finding C05-K1) -/
+example : ¬ MsgMatches exPat2.cstr (mkMsg (exAddr2 ++ [122]) [105] []) := by decide
+
+/-- the K1 witness `{a,ab}c` / "abc" in the terms of `k1_exact`: it spells the pattern, but
+    not by its leftmost reading -/
+example : PathSpec k1Pat [97, 98, 99] ∧ ¬ PathSpecLeftmost k1Pat [97, 98, 99] := by
+  have hn : NulFree [97, 98, 99] := by unfold NulFree; decide
+  refine ⟨⟨[], SpellsAll.alts _ [97, 98] (by simp) (SpellsAll.lit [99] (SpellsAll.nil [])), by simp [k1Pat]⟩, ?_⟩
+  intro h
+  obtain ⟨r, hr⟩ := match_leftmost_complete (p := k1Pat) (by decide) [] hn h
+  have : path k1Pat.cstr ([97, 98, 99] ++ [0]) = .fail := by decide
+  rw [this] at hr
+  cases hr
+
+/-- `msg_complete` on the example of the first part: no bound on digit runs asked for -/
+example : MsgMatches exPat.cstr (mkMsg exAddr [102, 102] []) :=
+  msg_complete (by decide) [] (by unfold NulFree exAddr; decide)
+    ⟨⟨[47, 114, 101, 115, 116],
+      SpellsAll.lit [97, 98]
+        (SpellsAll.enum [49, 50] [48, 48, 55] (by simp) (by decide) (by intro c t h; cases h; decide)
+          (by decide)
+          (SpellsAll.lit [47, 99] (SpellsAll.alts _ [121, 122] (by simp) (SpellsAll.nil _)))),
+      ⟨_, rfl⟩⟩,
+     by intro ts h; cases h; simp⟩
 
 end Rtosc.Match
